@@ -182,6 +182,7 @@ class Context(object):
         self.path_index = 0
         self.leaves = []                # (name, value, kind) of symbolic inputs, for concretisation
         self.assumed_contracts = set()
+        self.modular_sites = {}         # (callee, line, clause) -> [times false outright, times assumable]
         self.inlined = set()
         self.notes = []
         self.current_task = None
@@ -399,6 +400,8 @@ class Context(object):
         else:
             verdict, model, solver = "proved", None, "z3"
             for hyps, goal in split_goal(zc):
+                if os.environ.get("H5V_TRACE_GOALS"):
+                    print("GOAL", oid.split("/")[-1], round((time.time() - t0) * 1000), str(goal)[:300].replace("\n", " "), flush=True)
                 neg = z3.And(*(hyps + [z3.Not(goal)])) if hyps else z3.Not(goal)
                 # staged: fewer hypotheses first (sound: a proof from a subset is a proof) -- irrelevant
                 # library facts are what makes the string solver wander
